@@ -5,6 +5,7 @@
 // fields a signature must bind) and the injectivity lemmas.
 #![allow(unused_imports, unused_variables, dead_code, unused_mut, non_snake_case)]
 use vstd::prelude::*;
+use std::collections::{HashMap, HashSet, VecDeque};   // the std collections a change to the extracted code may reach for
 verus! {
 
 pub type Uid = [u8; 16];
